@@ -465,28 +465,44 @@ Proof.
   unfold ser_body. rewrite !len_app, !len_cons, len_to_be32, len_to_be16, len_nil. lia.
 Qed.
 
-Theorem decode_ser s : supported s -> new_scte35 (ser_splice_info s) = Ok (expected s).
+(* field ranges of the fixed part (everything but the command body and the descriptors) *)
+Definition wf_fixed (s : splice_info) : Prop :=
+  len (si_pointer s) < 255 /\ si_sap s < 4 /\ si_enc_alg s < 64 /\ si_pts_adj s < 8589934592 /\
+  si_tier s < 4096 /\ len (ser_command (si_cmd s)) < 4095 /\ section_length s < 4096.
+Definition sec_tail (s : splice_info) : bytes :=
+  to_be16 (len (ser_descriptors (si_descs s))) ++ ser_descriptors (si_descs s) ++ si_stuffing s ++ to_be32 (si_crc s).
+
+Ltac open_section s :=
+  pose proof (len_ser_body s) as LB;
+  unfold new_scte35, parse_table, ser_splice_info; cbn [pointer_field];
+  set (SEC := ser_section s);
+  assert (LS : len SEC = 7 + len (ser_body s))
+    by (unfold SEC, ser_section, ser_section_nocrc, ser_header; rewrite !len_app, !len_cons, len_to_be32, len_nil; lia);
+  rewrite len_cons, len_app; unfold w16, w8; rewrite !N.mod_small by lia;
+  bfalse (1 + (len (si_pointer s) + len SEC) <? len (si_pointer s) + 4 + 15); red1;
+  unfold buf_new;
+  change (len (si_pointer s) :: si_pointer s ++ SEC) with ((len (si_pointer s) :: si_pointer s) ++ SEC);
+  rewrite next_app by (rewrite len_cons; lia); red1;
+  rewrite slice_from_app by (rewrite len_cons; lia);
+  unfold SEC at 1; unfold ser_section, ser_section_nocrc, ser_header, ser_body, to_be32 at 1;
+  rewrite <- !app_assoc; cbn [app];
+  rewrite next3; red1;
+  unfold table_header_from_bytes;
+  match goal with |- context [len ?l <? 3] => change (len l <? 3) with false end; red1;
+  rewrite idx0, idx1, idx2; red1.
+
+Lemma parse_table_fixed s : wf_fixed s -> si_table_id s = 252 -> si_encrypted s = false ->
+  new_scte35 (ser_splice_info s) =
+  (let? r := parse_command (command_type (si_cmd s)) (si_pts_adj s)
+               (mkbuf (ser_command (si_cmd s) ++ sec_tail s) (Some (command_type (si_cmd s)))) in
+   let '(pts, cmd, b) := r in
+   let? od := parse_descriptors 1 (ser_splice_info s) b in
+   let (other, descs) := od in
+   Ok (mkscte 1 252 (si_ssi s) (si_private s) (section_length s mod 1024) (si_protocol s) false (si_enc_alg s)
+              pts (si_cw s) (si_tier s) (cmd_len_field s) (command_type (si_cmd s)) cmd descs 0 (ser_section s) other)).
 Proof.
-  intros (Hwf & Htid & Henc & Hptr & Hsup).
-  destruct Hwf as (Hpb & Hpl & _ & Hsap & Hpv & Hea & Hadj & Hcw & Htier & Hcmd & Hcl & Hds & Hdl & Hst & Hcrc & Hsl).
-  pose proof (len_ser_body s) as LB.
-  unfold new_scte35, parse_table, ser_splice_info. cbn [pointer_field].
-  set (SEC := ser_section s).
-  assert (LS : len SEC = 7 + len (ser_body s)).
-  { unfold SEC, ser_section, ser_section_nocrc, ser_header. rewrite !len_app, !len_cons, len_to_be32, len_nil. lia. }
-  rewrite len_cons, len_app. unfold w16, w8. rewrite !N.mod_small by lia.
-  bfalse (1 + (len (si_pointer s) + len SEC) <? len (si_pointer s) + 4 + 15). red1.
-  unfold buf_new.
-  change (len (si_pointer s) :: si_pointer s ++ SEC) with ((len (si_pointer s) :: si_pointer s) ++ SEC).
-  rewrite next_app by (rewrite len_cons; lia). red1.
-  rewrite slice_from_app by (rewrite len_cons; lia).
-  (* the section, byte by byte *)
-  unfold SEC at 1. unfold ser_section, ser_section_nocrc, ser_header, ser_body, to_be32 at 1.
-  rewrite <- !app_assoc. cbn [app].
-  rewrite next3. red1.
-  unfold table_header_from_bytes.
-  match goal with |- context [len ?l <? 3] => change (len l <? 3) with false end. red1.
-  rewrite idx0, idx1, idx2. red1.
+  intros (Hptr & Hsap & Hea & Hadj & Htier & Hcl & Hsl) Htid Henc.
+  open_section s.
   destruct (hdr_bits (si_ssi s) (si_private s) (si_sap s) (section_length s) Hsap Hsl) as (B1 & B2 & B3).
   cbv zeta in B1, B2, B3. rewrite B1, B2, B3. clear B1 B2 B3.
   rewrite Htid. change (252 =? 252) with true. red1.
@@ -507,13 +523,29 @@ Proof.
   rewrite land240s4, land15 by exact Ht1.
   replace (si_tier s / 16 * 16 + t1 / 16) with (si_tier s) by (unfold t1; lia).
   replace (t1 mod 16 * 256 + cmd_len_field s mod 256) with (cmd_len_field s) by (unfold t1; lia).
-  rewrite rb0. red1.
-  destruct (parse_command_ser (si_cmd s) (si_pts_adj s)
-              (to_be16 (len (ser_descriptors (si_descs s))) ++ ser_descriptors (si_descs s) ++ si_stuffing s ++ to_be32 (si_crc s))
-              (Some (command_type (si_cmd s))) Hcmd Hsup Hadj) as [l1 E1].
-  rewrite E1. red1.
+  rewrite rb0. red1. reflexivity.
+Qed.
+
+Lemma wf_fixed_of s : wf_splice_info s -> len (si_pointer s) < 255 -> wf_fixed s.
+Proof.
+  intros (Hpb & Hpl & _ & Hsap & Hpv & Hea & Hadj & Hcw & Htier & Hcmd & Hcl & Hds & Hdl & Hst & Hcrc & Hsl) Hp.
+  repeat split; assumption.
+Qed.
+
+Lemma data_fuel s : (length (ser_descriptors (si_descs s)) <= length (ser_splice_info s))%nat.
+Proof.
+  unfold ser_splice_info, ser_section, ser_section_nocrc, ser_body. cbn [length]. rewrite !app_length. lia.
+Qed.
+
+Theorem decode_ser s : supported s -> new_scte35 (ser_splice_info s) = Ok (expected s).
+Proof.
+  intros (Hwf & Htid & Henc & Hptr & Hsup).
+  rewrite parse_table_fixed by (try assumption; apply wf_fixed_of; assumption).
+  destruct Hwf as (Hpb & Hpl & _ & Hsap & Hpv & Hea & Hadj & Hcw & Htier & Hcmd & Hcl & Hds & Hdl & Hst & Hcrc & Hsl).
+  destruct (parse_command_ser (si_cmd s) (si_pts_adj s) (sec_tail s) (Some (command_type (si_cmd s))) Hcmd Hsup Hadj) as [l1 E1].
+  rewrite E1. red1. unfold sec_tail.
   rewrite parse_descriptors_ser; try assumption.
   - red1. unfold expected, expected_pts. rewrite Htid. destruct (si_cmd s); reflexivity.
   - rewrite len_app, len_to_be32. lia.
-  - cbn [length]. rewrite app_length. unfold SEC, ser_section, ser_section_nocrc, ser_body. rewrite !app_length. lia.
+  - apply data_fuel.
 Qed.
